@@ -191,7 +191,11 @@ class Out:
                 # driver are not disturbed); every theorem that pins the fact stops checking
                 val = f"false  -- translator_site_missing_{site}  -- {e}"
             else:
-                val = f"translator_site_missing_{site}  -- {e}"
+                # a data site that is gone: the definition gets the type's `default` so that the module, and with it the
+                # one driver binary every property's correspondence needs, still builds; the marker in the comment makes
+                # the translate step fail for exactly the properties whose closure imports this module (their theorems
+                # about the real value stop checking as well)
+                val = f"default  -- translator_site_missing_{site}  -- " + str(e).replace("\n", " ")
             self.facts[name] = None
         self.lines.append(f"def {name} : {typ} := {val}" + (f"  -- {note}" if note else ""))
 
@@ -468,7 +472,7 @@ def gen_ids(repo):
         ids = members(t_if, "EParseId", "id")
         o.raw("def parseIds : List Nat := [%s]" % ", ".join(str(v) for _, v in ids))
     except Missing as e:
-        o.raw(f"def parseIds : List Nat := translator_site_missing_Ids_parseIds -- {e}")
+        o.raw(f"def parseIds : List Nat := default  -- translator_site_missing_Ids_parseIds -- {e}")
     for tree, cls, prefix in ((t_if, "EParseError", "err"), (t_ip, "EParseIdSetFlags", "set"),
                               (t_ip, "EParseStreamFlags", "sflag"), (t_ip, "EParseDataType", "dt"),
                               (t_dev, "EDeviceChannelType", "ty"), (t_dev, "EDeviceFlags", "dflag")):
@@ -502,7 +506,7 @@ def site_fmt(o, name, func, kind, idx, note="", expect_args=None, count=None):
         o.facts[name] = t
     except Missing as e:
         site = re.sub(r"[^A-Za-z0-9_]", "_", f"Fmt_{name}")
-        o.raw(f"def {name} : Fmt := translator_site_missing_{site}  -- {e}")
+        o.raw(f"def {name} : Fmt := default  -- translator_site_missing_{site}  -- {e}")
         o.facts[name] = None
 
 
@@ -654,7 +658,7 @@ def gen_types(repo):
         o.raw("]")
         o.facts["table"] = rs
     except Missing as e:
-        o.raw(f"def table : List Nat := translator_site_missing_Types_table -- {e}")
+        o.raw(f"def table : List Nat := default  -- translator_site_missing_Types_table -- {e}")
 
     def meta():
         f = find_func(t, "msfmt_get")
@@ -905,7 +909,7 @@ def gen_recv(repo):
             o.raw(f"  (Nxs.Gen.Ids.id{fidname}, {names.index(cb)}, {lean_bool(eq)}, {k}){',' if i < len(rows)-1 else ''}  -- {fidname} -> {cb}")
         o.raw("]")
     except Missing as e:
-        o.raw(f"def cbTable : List (Nat × Nat × Bool × Nat) := translator_site_missing_Recv_cbTable -- {e}")
+        o.raw(f"def cbTable : List (Nat × Nat × Bool × Nat) := default  -- translator_site_missing_Recv_cbTable -- {e}")
     return o
 
 
@@ -1282,10 +1286,10 @@ def run(repo=REPO, out=OUT, only=None):
     for g in gens:
         try:
             o = g(repo)
-        except (Missing, SyntaxError, FileNotFoundError) as e:
+        except Exception as e:  # noqa: BLE001 - a source the generator cannot digest is a missing site, not a crash
             nm = g.__name__[4:].capitalize()
             o = Out(nm)
-            o.raw(f"def generatorFailed : Nat := translator_site_missing_{nm}  -- {e}")
+            o.raw(f"def generatorFailed : Nat := translator_site_missing_{nm}  -- " + str(e).replace("\n", " "))
         if only and o.name not in only:
             continue
         text = o.text()
